@@ -46,6 +46,11 @@ def run(tier, seed):
     if len(notes) > max(1, n // 8):
         raise vlib.Infra(f"{len(notes)} of {n} configurations could not be set up: {notes[:3]}")
     sc.validate(v, "Trace_Tunnel", (vlib.SPEC / "Trace_Tunnel.cfg").read_text(), tf, "tunnel")
+    # stcp with a backend that speaks first, under the schedule that lets its bytes overtake the answer to the visitor
+    of = d / "visitororder.ndjson"
+    p = vlib.run_driver(drv, ["visitororder", "-rounds", 2 if tier == "quick" else 6, "-out", of], timeout=900)
+    sc.parse_stats(p.stdout, stats)
+    sc.validate(v, "Trace_Tunnel", (vlib.SPEC / "Trace_Tunnel.cfg").read_text(), of, "stcp visitor answer versus backend bytes")
     v.samples = []
     conn = [e for e in evs if e.get("ev") == "tn.conn"]
     v.sample({"connections": [{k: e[k] for k in e if k not in ("t_us", "src", "seq")} for e in conn[:4]],
